@@ -199,22 +199,23 @@ Proof. intros H; apply H. Qed.
 
 Section StepsJ.
 Variable K : Consts.
+Variable sq : bool.          (* sparse_pc of API.v *)
 Hypothesis SK : sane_consts K.
 
 Theorem setup_agreeJ ident j1 j2 S n p m B :
   setup_blocks_ok n p m B ->
-  RR (sv_agreeJ j1 j2) (setup K ident j1 S n p m B) (setup K ident j2 S n p m B).
+  RR (sv_agreeJ j1 j2) (setup K ident sq j1 S n p m B) (setup K ident sq j2 S n p m B).
 Proof.
-  intros HB. pose proof (setup_junk_indep K ident j1 j2 S n p m B) as H.
-  destruct (setup K ident j1 S n p m B) as [a|] eqn:Ea; destruct (setup K ident j2 S n p m B) as [b|] eqn:Eb;
+  intros HB. pose proof (setup_junk_indep K ident sq j1 j2 S n p m B) as H.
+  destruct (setup K ident sq j1 S n p m B) as [a|] eqn:Ea; destruct (setup K ident sq j2 S n p m B) as [b|] eqn:Eb;
     cbn in H |- *; try contradiction; [|exact H].
   split; [apply sv_agree_strong_agree; exact H|].
-  destruct (setup_wf K ident j1 S n p m B a SK HB Ea) as ((W & _) & _).
+  destruct (setup_wf K ident sq j1 S n p m B a SK HB Ea) as ((W & _) & _).
   pose proof (wf_nlb_le _ W) as N1. pose proof (wf_nub_le _ W) as N2.
   destruct H as [(_ & Ed & _) _].
   unfold setup in Ea, Eb. destruct (b_P B); [|discriminate]. destruct (b_c B); [|discriminate]. cbv zeta in Ea, Eb.
   repeat match type of Ea with context [match ?x with pair _ _ => _ end] => destruct x end.
-  destruct (scale_data K _ _ _ _ _) as [[pc d]|]; cbn [bind] in Ea, Eb; [|discriminate].
+  destruct (scale_data K _ _ _ _ _ _) as [[pc d]|]; cbn [bind] in Ea, Eb; [|discriminate].
   destruct (kkt_init d _ _ j1) as [k1|] eqn:E1; cbn [bind] in Ea; [|discriminate].
   destruct (kkt_init d _ _ j2) as [k2|] eqn:E2; cbn [bind] in Eb; [|discriminate].
   injection Ea as <-. injection Eb as <-. cbn in *.
@@ -258,18 +259,18 @@ Qed.
 
 Theorem update_agreeJ j1 j2 n p m a b B reuse :
   sv_agreeJ j1 j2 a b -> WFd n p m a -> update_blocks_ok n p m B -> 0 < k_delta (sv_kkt a) ->
-  RR (sv_agreeJ j1 j2) (update K a B reuse) (update K b B reuse).
+  RR (sv_agreeJ j1 j2) (update K sq a B reuse) (update K sq b B reuse).
 Proof.
   intros (HA & HR & Hl) HW HB Hd.
-  pose proof (update_junk_indep_cond K a b B reuse HA
+  pose proof (update_junk_indep_cond K sq a b B reuse HA
                 (fun pc d _ => kkt_update_data_status d j1 j2 _ _ _ _ _ (sv_agree_pend _ _ HA) HR Hd)) as H.
-  destruct (update K a B reuse) as [a'|] eqn:Ea; destruct (update K b B reuse) as [b'|] eqn:Eb;
+  destruct (update K sq a B reuse) as [a'|] eqn:Ea; destruct (update K sq b B reuse) as [b'|] eqn:Eb;
     cbn in H |- *; try contradiction; [|exact H].
   split; [exact H|].
-  destruct (update_wf K n p m a B reuse a' SK HW HB Ea) as (_ & Hn' & _). destruct HW as (_ & Hn & _).
+  destruct (update_wf K sq n p m a B reuse a' SK HW HB Ea) as (_ & Hn' & _). destruct HW as (_ & Hn & _).
   rewrite update_split in Ea, Eb.
-  destruct (update_data K a B reuse) as [[pc1 d1]|]; cbn [bind] in Ea; [|discriminate].
-  destruct (update_data K b B reuse) as [[pc2 d2]|]; cbn [bind] in Eb; [|discriminate].
+  destruct (update_data K sq a B reuse) as [[pc1 d1]|]; cbn [bind] in Ea; [|discriminate].
+  destruct (update_data K sq b B reuse) as [[pc2 d2]|]; cbn [bind] in Eb; [|discriminate].
   destruct (kkt_update_data d1 (sv_kkt a) _ _ _) as [k1|] eqn:E1; cbn [bind] in Ea; [|discriminate].
   destruct (kkt_update_data d2 (sv_kkt b) _ _ _) as [k2|] eqn:E2; cbn [bind] in Eb; [|discriminate].
   apply kkt_update_data_arrays in E1, E2.
